@@ -49,9 +49,11 @@ for d in sorted(glob.glob(f'{ROOT}/mutations/C*')):
     out.append(f"| {p} | {n} | {det if det is not None else 'see NOTES.md'} | {', '.join(names_missed) if names_missed else ('—' if det is not None else 'see NOTES.md')} |")
 out.append('')
 out.append('### 9.5 Independently seeded changes (fresh sub-agents that saw only the property text; /verif/seeded/<id>/)\n')
-_r3=set(open(f'{ROOT}/seeded/ROUND3.txt').read().split()) if os.path.exists(f'{ROOT}/seeded/ROUND3.txt') else set()
+_rk={}
+for _f in glob.glob(f'{ROOT}/seeded/ROUND*.txt'):
+    for _n in open(_f).read().split(): _rk[_n]=int(re.search(r'ROUND(\d+)',_f).group(1))
 def _round(name):
-    if name in _r3: return 3
+    if name in _rk: return _rk[name]
     return 1 if int(name.split('-')[1])<=3 else 2
 _res={}
 if os.path.exists(f'{ROOT}/seeded/RESULTS.txt'):
